@@ -1,6 +1,6 @@
 (* C01 driver.  stdin: "case <id>", ops, "end".
    table ops (one history per case, in order):
-     S <name> <src> | C <name> <0|1> <src> | F <name> <0|1> | R <name> | T <name> | E <name>
+     S <name> <src> | C <name> <0|1> <src> | F <name> <0|1> | R <name> | T <name> | E <name> | Z (Reset)
      <name> = a number; <src> = A<tag> (accepted, prints G<tag>) | J<kind> (rejected with class <kind>)
    skeleton ops (independent): K <tokens>   tokens: W( D( S( T( | I( ) b c f
    prints per op  m <obs>  (model), then  s <obs>  per op (specification), in the harness's text *)
@@ -52,6 +52,7 @@ let parse_line (l : string) : line =
   | ["R"; n] -> Tab ("R", ORun (n_of_int (int_of_string n)))
   | ["T"; n] -> Tab ("T", ORun (n_of_int (int_of_string n)))
   | ["E"; n] -> Tab ("E", OExec (n_of_int (int_of_string n)))
+  | ["Z"] -> Tab ("Z", OReset)
   | "K" :: tk -> Skel (fst (p_list tk))
   | _ -> Bad
 let obs_str (c : string) (o : obs) : string =
